@@ -81,19 +81,13 @@ pub fn read_pool(path: &str) -> Vec<(String, String)> {
 }
 
 /// Read TLC output and turn every REPLAY line into a JSON value.
-pub fn read_replays(path: &str) -> Vec<Value> {
+/// The REPLAY records of a TLC output file, one at a time (the thorough tier's files reach gigabytes).
+pub fn read_replays(path: &str) -> impl Iterator<Item = Value> {
     let f = std::fs::File::open(path).unwrap_or_else(|e| {
         eprintln!("cannot open {path}: {e}");
         std::process::exit(2)
     });
-    let mut v = vec![];
-    for l in std::io::BufReader::new(f).lines() {
-        let l = l.unwrap();
-        if let Some(j) = parse_replay_line(&l) {
-            v.push(j);
-        }
-    }
-    v
+    std::io::BufReader::new(f).lines().filter_map(|l| parse_replay_line(&l.unwrap()))
 }
 
 fn main() {
